@@ -37,7 +37,8 @@ THEOREMS = [
     "JanetModel.Props.C11.produce_touches_only_queue",
     "JanetModel.Props.C11.flush_frames_in_bounds",
     "JanetModel.Props.C11.takeError_frames_in_bounds",
-    "JanetModel.Props.C11.advancePos_is_posStep",
+    "JanetModel.Props.C11.position_function_of_bytes",
+    "JanetModel.Props.C11.position_independent_of_scan",
     "JanetModel.Props.C11.escape_roundtrip",
 ]
 ENV = dict(os.environ, ASAN_OPTIONS="detect_leaks=0:abort_on_error=0", UBSAN_OPTIONS="print_stacktrace=1")
